@@ -58,6 +58,7 @@ def run(ck):
     accepted_sets(ck, prog)
     from . import width
     width.run(ck, prog)
+    vint_rule(ck, prog)
     ck.control("u16 and u32 length prefixes are different tokens", ("fixed", 2, "") != ("fixed", 4, ""))
 
 
@@ -194,3 +195,74 @@ def accepted_sets(ck, prog):
     ck.floor("narrowing casts in TraceInfo::write_into", n_tr, 4)
     ck.control("the comparison distinguishes `sum > 255` from `sum >= 255`",
                _member((255, 0, 0), [([(1, 255), (0, 255), (0, 255)], [(0, 1, 1, 255)])]) and not _member((255, 0, 0), [([(1, 255), (0, 255), (0, 255)], [(0, 1, 1, 254)])]))
+
+
+# ---- VINT: the variable-length size encoding reserves enough bytes for every value -------------------------------------------------
+
+def vint_rule(ck, prog):
+    """`ByteWriter::write_usize` writes `((value << 1 | 1) << (length - 1))` truncated to `length` bytes (7 value bits per byte), or the
+    9-byte form. The value survives only if length = 9 or value < 2^(7*length). The function that computes `length` is evaluated by the
+    interval engine (E4) on a partition of ALL 64-bit values into 129 classes — {0}, {2^(k-1)} and [2^(k-1)+1, 2^k - 1] for k = 1..64 — on
+    which `leading_zeros`, `next_power_of_two`, `trailing_zeros`, shifts and divisions by constants are exact or monotone; a class whose
+    result is a single length that is too small is a violation with that class as the witness (an exact power of two, typically: the
+    bit length is one more than the logarithm), a class whose result is not a single value is not decided."""
+    from ..ranges import Analyzer, mk
+    ck.rule("VINT", "write_usize: for every 64-bit value the encoded length is 9 or at least ceil(bit length / 7) (and between 1 and 9); "
+                    "decided on a partition of all values into 129 bit-length classes")
+    BW = "winter_utils::serde::byte_writer::ByteWriter"
+    wu = [f for f in prog.fns.values() if f.nname.endswith("ByteWriter::write_usize") and f.crate == "winter_utils" and f.blocks]
+    if not wu:
+        raise AnchorError("ByteWriter::write_usize not found")
+    wu = wu[0]
+    ck.saw(wu)
+    cands = []
+    for b, t in wu.calls():
+        fs, precise = prog.resolve_call(t)
+        for h in fs:
+            ins = h.get("inputs") or []
+            if precise and h.crate == "winter_utils" and len(ins) == 1 and ins[0] in ("u64", "usize") and (h.get("output") or "") in ("usize", "u64", "u32", "u8"):
+                cands.append(h)
+    if len(cands) != 1:
+        ck.note(f"VINT: the length computation of write_usize is not a single helper function ({len(cands)} candidates); not decided")
+        return
+    lf = cands[0]
+    ck.saw(lf)
+
+    def classes():
+        yield 0, 0
+        for k in range(1, 65):
+            lo, hi = 1 << (k - 1), (1 << k) - 1
+            yield lo, lo
+            if hi > lo:
+                yield lo + 1, hi
+    decided, undecided, bad = 0, 0, []
+    for lo, hi in classes():
+        an = Analyzer(prog, max_depth=4)
+        try:
+            s = an.analyze(lf, [mk(lo, hi, False)])
+        except Exception as e:   # the engine could not follow the function: nothing is claimed
+            ck.note(f"VINT: {lf.nname} could not be evaluated ({type(e).__name__}); not decided")
+            return
+        rets = [rv for rv, _ in s.accepts if rv.get("k") == "int"]
+        if not rets:
+            undecided += 1
+            continue
+        rlo, rhi = min(r["lo"] for r in rets), max(r["hi"] for r in rets)
+        fits = (rlo >= 9 or hi < (1 << (7 * max(rlo, 0)))) and 1 <= rlo and rhi <= 9
+        if fits:
+            decided += 1
+        elif rlo == rhi:
+            decided += 1
+            bad.append((lo, hi, rlo))
+        else:
+            undecided += 1
+    ck.stats["VINT classes (decided / not decided)"] = (decided, undecided)
+    if undecided:
+        ck.note(f"VINT: {undecided} of 129 value classes have no single encoded length in the interval domain; those classes are not decided")
+    w = bad[0] if bad else None
+    ck.ob("VINT", "write_usize:length-holds-value", not bad,
+          f"{lf.nname.split('::')[-1]}: on each of {decided} bit-length classes covering the values it decides, the encoded length is 9 or holds the "
+          "value in 7 bits per byte", loc=lf.loc(),
+          detail=None if not bad else f"value {w[0]} (= 2^{w[0].bit_length() - 1}{'' if w[0] == w[1] else ' + ..'}, {w[0].bit_length()} bits) gets {w[2]} byte(s) = "
+                                      f"{7 * w[2]} value bits; {len(bad)} classes fail: {[(a.bit_length(), c) for a, b, c in bad][:8]} (bit length, bytes)")
+    ck.floor("VINT: value classes decided", decided, 129)
